@@ -11,6 +11,7 @@ Equality of results across histories is not decided.  Decided (N): the shared-st
 from __future__ import annotations
 
 import ast
+import re
 
 from .core import AnalysisError, loc, norm_src, walk_no_nested, dotted
 from .c13 import param_mutations
@@ -443,7 +444,21 @@ def reset(index, rep):
                   for s in walk_no_nested(initsc))
     from .core import bind_args as _ba14
     kw = {k_: norm_src(v_) for k_, v_ in _ba14(call[0], index.func(UC, "UnitConversions.set_nutrition_requirements")).items()} if call else {}
-    rep.check(pop_set and kw.get("population") == "self.POP" and kw.get("include_fat") == "constants_inputs['INCLUDE_FAT']"
+    # the population handed over is this run's: self.POP, or the entry init_scenario stored it under in the table it returns - either way
+    # assigned there from constants_inputs['POP']
+    stores_ = {norm_src(s_.targets[0]): norm_src(s_.value) for s_ in walk_no_nested(initsc) if isinstance(s_, ast.Assign) and len(s_.targets) == 1}
+    ret_names = {norm_src(r_.value) for r_ in walk_no_nested(initsc) if isinstance(r_, ast.Return) and isinstance(r_.value, ast.Name)}
+
+    def from_inputs(txt, depth=0):
+        if "constants_inputs['POP']" in txt:
+            return True
+        return depth < 3 and txt in stores_ and from_inputs(stores_[txt], depth + 1)
+    pop_arg = kw.get("population", "")
+    pop_ok = pop_arg == "self.POP" and pop_set
+    m_pop = re.fullmatch(r"(\w+)\['POP'\]", pop_arg)
+    if not pop_ok and m_pop and m_pop.group(1) in [a.arg for a in nut.args.args]:
+        pop_ok = any(from_inputs(f"{rn}['POP']") for rn in ret_names)
+    rep.check(pop_ok and kw.get("include_fat") == "constants_inputs['INCLUDE_FAT']"
               and kw.get("include_protein") == "constants_inputs['INCLUDE_PROTEIN']", rule, "first-round:settings-from-this-run",
               "the settings passed are not this run's POP / INCLUDE_FAT / INCLUDE_PROTEIN", loc=loc(PARAMS, nut))
     # run_and_analyze_scenario: first round parameters before anything else touching Food
